@@ -349,7 +349,7 @@ theorem parseInteger_of_constant (c : List Char) (v : Int)
       unfold stripPrefix at hds; split at hds
       · rw [hp2] at hds; exact (Option.some.inj hds).symm
       · simp at hds
-    unfold parseInteger
+    unfold parseInteger radixSplit
     simp only [List.head?_cons, Option.some.injEq, hm, hp, or_self, if_false]
     unfold parseConstant at h
     cases hX : stripPrefix ['0', 'X'] (a :: t) with
